@@ -13,7 +13,7 @@ rd=$(mktemp -d /tmp/mutreplays-XXXXXX)
 trap cleanup EXIT
 case "$change" in
   revert:*) git -C "$wt" revert --no-commit "${change#revert:}" >/dev/null || { echo "revert failed"; exit 2; } ;;
-  *) git -C "$wt" apply "$change" || { echo "patch does not apply"; exit 2; } ;;
+  *) git -C "$wt" apply "$(realpath "$change")" || { echo "patch does not apply"; exit 2; } ;;
 esac
 export GOFLAGS=-mod=mod GOPROXY=off GOSUMDB=off GOTOOLCHAIN=local
 if [ "${SKIP_BASELINE:-0}" != 1 ]; then
